@@ -441,6 +441,61 @@ func ruleArrBound(c *Ctx) {
 			}
 		}
 	}
+	// who may touch the element storage: pointers derived from the header's Data go nowhere but into the
+	// item codec's Read as its destination
+	{
+		seenV := map[ssa.Value]bool{}
+		var work []ssa.Value
+		for _, b := range fn.Blocks {
+			for _, in := range b.Instrs {
+				if ld, ok := in.(*ssa.UnOp); ok && ld.Op == token.MUL {
+					if fa, ok := ld.X.(*ssa.FieldAddr); ok && isUnsafePointer(ld.Type()) && typeKey(fa.X.Type()) == "*avro.sliceHeader" {
+						work = append(work, ld)
+					}
+				}
+			}
+		}
+		nUse, bad := 0, ""
+		for len(work) > 0 {
+			v := work[len(work)-1]
+			work = work[:len(work)-1]
+			if seenV[v] {
+				continue
+			}
+			seenV[v] = true
+			for _, r := range referrersOf(v) {
+				switch x := r.(type) {
+				case *ssa.DebugRef:
+				case *ssa.Convert:
+					if isUnsafePointer(x.Type()) || isBasicKind(x.Type(), types.Uintptr) {
+						work = append(work, x)
+					} else {
+						bad = "the element storage is reinterpreted as " + x.Type().String() + " at " + P.pos(x.Pos())
+					}
+				case *ssa.BinOp:
+					work = append(work, x)
+				case *ssa.Phi:
+					work = append(work, x)
+				case *ssa.Call:
+					switch {
+					case isBuiltinCall(x, "Add"):
+						work = append(work, x)
+					case x.Call.IsInvoke() && x.Call.Method.Name() == "Read" && isCodecIface(P, x.Call.Value.Type()) && len(x.Call.Args) == 2 && x.Call.Args[1] == v:
+						nUse++
+					default:
+						bad = "a pointer into the element storage is handed to " + strings.ReplaceAll(x.Call.Value.String(), "github.com/philpearl/", "") + " at " + P.pos(x.Pos())
+					}
+				case *ssa.Store:
+					if x.Val == v {
+						bad = "a pointer into the element storage is stored at " + P.pos(x.Pos())
+					}
+				default:
+					bad = fmt.Sprintf("a pointer into the element storage is used by %T at %s", r, P.pos(r.Pos()))
+				}
+			}
+		}
+		c.Check(bad == "" && nUse > 0, key+"/element-stores", P.pos(rd.Pos()), "pointers into the slice's element storage are used only as the destination of the item codec's Read (one element, the element type's stride)", "elements are written other than one at a time by the item codec: "+bad+": the bytes written need not match the element type's size")
+	}
 	okArg := arg == n && grow.Block().Dominates(cl.Header) && !l.Blocks[grow.Block()]
 	c.Check(okArg && stored, key+"/grow-by-trip-count", P.pos(grow.Pos()), "the slice is grown by exactly the item loop's trip count, once per block, and the grown header is the one the items are stored through", "the slice is grown by a different amount than the number of items the loop then stores (or into a different header): items are written past the capacity of the backing array")
 	// the helper: returns its input only under Len+n <= Cap; otherwise a header whose Cap is Len+n
@@ -716,4 +771,92 @@ func exprMentions(v ssa.Value, sub string, d int) bool {
 		}
 	}
 	return false
+}
+
+// ---------- REC-LIST
+
+// ruleRecList: the record codec's field list is what the other record rules
+// reason about (one entry per schema field, in schema order). That holds only
+// if nothing but the builder's per-field append ever writes it.
+func ruleRecList(c *Ctx) {
+	c.Rule("REC-LIST", "the record codec's field list is built by appending exactly one entry per schema field, in the builder's loop over the schema's fields, and is never rewritten, re-ordered or merged afterwards", 2)
+	P := c.P
+	rfT, _, _ := recordFieldRoles(P)
+	if !c.Anchor(rfT != nil, "record field entry type (one Codec field, one uintptr offset)") {
+		return
+	}
+	isEntrySlice := func(t types.Type) bool {
+		sl, ok := t.Underlying().(*types.Slice)
+		if !ok {
+			return false
+		}
+		n, ok := types.Unalias(sl.Elem()).(*types.Named)
+		return ok && n.Obj() == rfT.Obj()
+	}
+	nAppend := 0
+	for _, fn := range P.ModuleFuncs() {
+		n := 0
+		for _, b := range fn.Blocks {
+			for _, in := range b.Instrs {
+				st, ok := in.(*ssa.Store)
+				if !ok {
+					continue
+				}
+				// (a) a store of a whole list into a struct field
+				if fa, isFA := st.Addr.(*ssa.FieldAddr); isFA && isEntrySlice(st.Val.Type()) {
+					n++
+					key := fmt.Sprintf("%s/list-store#%d", fnKey(fn), n)
+					pos := P.pos(st.Pos())
+					if emptySlice(st.Val) || isNilConst(st.Val) {
+						c.OKTrivial(key, pos, "the list starts empty")
+						continue
+					}
+					app, isApp := st.Val.(*ssa.Call)
+					okApp := isApp && isBuiltinCall(app, "append") && len(app.Call.Args) == 2
+					if okApp {
+						ld, isLd := app.Call.Args[0].(*ssa.UnOp)
+						okApp = isLd && ld.Op == token.MUL && accessPath(ld.X) == accessPath(fa)
+					}
+					one := false
+					if okApp {
+						// the variadic part is a one-element array literal
+						if sl, isSl := app.Call.Args[1].(*ssa.Slice); isSl {
+							if a, isA := sl.X.(*ssa.Alloc); isA {
+								if at, isArr := a.Type().Underlying().(*types.Pointer).Elem().Underlying().(*types.Array); isArr && at.Len() == 1 {
+									one = true
+								}
+							}
+						}
+					}
+					l := innermostLoop(fn, b)
+					switch {
+					case !okApp:
+						c.Unk(key, pos, "the record codec's field list is replaced by something other than an append to itself ("+strings.ReplaceAll(st.Val.String(), "github.com/philpearl/", "")+"): the entries may no longer correspond one-to-one, in order, to the schema's fields, which every other record rule assumes")
+					case !one:
+						c.Bad(key, pos, "more than one entry (or a whole slice) is appended to the record codec's field list at once")
+					case l == nil || !oncePerIteration(fn, l, st):
+						c.Bad(key, pos, "the entry is not appended exactly once per iteration of the loop over the schema's fields")
+					default:
+						nAppend++
+						c.OK(key, pos, "fields = append(fields, entry): one entry per iteration of the schema-field loop")
+					}
+					continue
+				}
+				// (b) a store into an element of a list
+				addr := st.Addr
+				for {
+					if fa, ok := addr.(*ssa.FieldAddr); ok {
+						addr = fa.X
+						continue
+					}
+					break
+				}
+				if ia, ok := addr.(*ssa.IndexAddr); ok && isEntrySlice(ia.X.Type()) {
+					n++
+					c.Unk(fmt.Sprintf("%s/entry-store#%d", fnKey(fn), n), P.pos(st.Pos()), "an entry of a record codec's field list is modified in place: the entries may no longer be what the builder computed for each schema field")
+				}
+			}
+		}
+	}
+	c.Check(nAppend == 1, "record-codec/list-built-once", "-", "exactly one place appends to the field list", fmt.Sprintf("%d places append to the record codec's field list", nAppend))
 }
